@@ -133,3 +133,75 @@ class get_resources_by_hrefs_c:
                 exists("int", lambda i: 0 <= i and i < len(hrefs) and hrefs[i] == _yielded[j][0])
                 and _yielded[j][1] == (None if path_of(environ["SCRIPT_NAME"], _yielded[j][0]) is None
                                        else resource_at(posixpath.normpath(path_of(environ["SCRIPT_NAME"], _yielded[j][0])))))))
+
+
+# ---------------------------------------------------------------------------- traversal (C16)
+ghost("members_of", ["opaque:Resource"], "list[tuple[str,opaque:Resource]]")
+
+
+@contract("iface:Resource.members", params={"self": "opaque:Resource"},
+          returns="list[tuple[str,opaque:Resource]]", assumed=True)
+class Resource_members:
+    def ensures(self, result):
+        return result == members_of(self)
+
+
+def is_collection(r):
+    return "{DAV:}collection" in r.resource_types
+
+
+def own_href(r, h):
+    return (h if h.endswith("/") else h + "/") if is_collection(r) else h
+
+
+@contract("xandikos.webdav.traverse_resource",
+          params={"base_resource": "opaque:Resource", "base_href": "str", "depth": "str", "members": "none"},
+          defaults={"members": None},
+          returns="list[tuple[str,opaque:Resource]]", yields="tuple[str,opaque:Resource]",
+          locals={"todo": "list[tuple[str,opaque:Resource,str]]", "href": "str", "resource": "opaque:Resource",
+                  "nextdepth": "str", "child_href": "str", "child_name": "str", "child_resource": "opaque:Resource"},
+          loop_modifies={0: ["todo"], 1: ["todo"]})
+class traverse_resource_c:
+    """C16: Depth 0 describes exactly the addressed resource; Depth 1 additionally exactly its
+    direct members, each once, in members() order; collection hrefs end in '/'; the href of a
+    member is the collection's href followed by the member's name (so that, percent-quoted
+    by create_href and decoded by the server, it addresses that member: Lemma C16)."""
+
+    def requires(base_resource, base_href, depth):
+        return depth == "0" or depth == "1"
+
+    def ensures(base_resource, base_href, depth, result):
+        h = own_href(base_resource, base_href)
+        ms = members_of(base_resource)
+        deep = depth == "1" and is_collection(base_resource)
+        return (len(result) == (1 + len(ms) if deep else 1)
+                and result[0][0] == h and result[0][1] == base_resource
+                and implies(deep, forall("int", lambda k: implies(
+                    0 <= k and k < len(ms),
+                    result[1 + k][0] == own_href(ms[k][1], h + ms[k][0]) and result[1 + k][1] == ms[k][1]))))
+
+    def inv_0(base_resource, base_href, depth, todo, _yielded):
+        h = own_href(base_resource, base_href)
+        ms = members_of(base_resource)
+        k = len(_yielded) - 1
+        return ((len(_yielded) == 0 and len(todo) == 1 and todo[0][0] == base_href and todo[0][1] == base_resource
+                 and todo[0][2] == old(depth))
+                or (len(_yielded) >= 1
+                    and _yielded[0][0] == h and _yielded[0][1] == base_resource
+                    and (len(todo) == 0 and k == 0 if not (old(depth) == "1" and is_collection(base_resource))
+                         else (k <= len(ms) and len(todo) == len(ms) - k
+                               and forall("int", lambda j: implies(0 <= j and j < len(todo),
+                                                                   todo[j][0] == h + ms[k + j][0]
+                                                                   and todo[j][1] == ms[k + j][1] and todo[j][2] == "0"))))
+                    and forall("int", lambda j: implies(0 <= j and j < k,
+                                                        _yielded[1 + j][0] == own_href(ms[j][1], h + ms[j][0])
+                                                        and _yielded[1 + j][1] == ms[j][1]))))
+
+    def inv_1(base_resource, base_href, depth, todo, href, resource, nextdepth, _i, _seq, _yielded):
+        h = own_href(base_resource, base_href)
+        return (_seq == members_of(base_resource) and resource == base_resource and href == h and nextdepth == "0"
+                and len(_yielded) == 1 and _yielded[0][0] == h and _yielded[0][1] == base_resource
+                and len(todo) == _i
+                and forall("int", lambda j: implies(0 <= j and j < _i,
+                                                    todo[j][0] == h + _seq[j][0] and todo[j][1] == _seq[j][1]
+                                                    and todo[j][2] == "0")))
